@@ -76,7 +76,11 @@ WsNeverWrapped == \A c \in Cfgs, cert \in Certs : c.scheme = "ws" => Outcome(c, 
 
 (* e: [c, cert, outcome ("established" | "tls_rejected" | "plain" | other), firstByteTls, sni, wsSeenByServer,
        wsBeforeHandshake, connected, verifyMode, checkHostname (of the context actually used, when connected)] *)
-TlsFaults(e) ==
+(*  spelling: how the scheme was written ("lower" | "upper" | "mixed"): another spelling may be refused before anything
+             is sent (ValueError), or be treated exactly like the lower-case scheme - never anything in between
+    via: "direct" | "redirect" (the wss URL was reached by a redirect from ws:// on the same host and port);
+    plainFollowup: the client went on talking on the plaintext connection that delivered the redirect *)
+TlsFaults0(e) ==
   LET want == Outcome(e.c, e.cert) IN
   (IF e.outcome # want THEN
       {IF want = "tls_rejected" THEN "C11.unverified_peer_accepted"
@@ -87,4 +91,8 @@ TlsFaults(e) ==
   \cup (IF Wrapped(e.c) /\ e.wsBeforeHandshake THEN {"C11.websocket_data_before_tls_verification"} ELSE {})
   \cup (IF want = "tls_rejected" /\ e.wsSeenByServer THEN {"C11.websocket_data_sent_to_rejected_peer"} ELSE {})
   \cup (IF Wrapped(e.c) /\ e.sni # "" /\ e.sni # WantedName(e.c) THEN {"C11.sni_is_not_the_requested_name"} ELSE {})
+  \cup (IF Wrapped(e.c) /\ e.plainFollowup THEN {"C11.wss_target_of_a_redirect_served_on_the_plaintext_connection"} ELSE {})
+
+TlsFaults(e) ==
+  IF e.spelling # "lower" /\ e.outcome = "refused" /\ ~e.anythingSent THEN {} ELSE TlsFaults0(e)
 =============================================================================
